@@ -107,9 +107,26 @@ class RegexVM:
         self.poll_interval = poll_interval
         self.step_limit = step_limit
 
+        # Steps since creation, over all attempts and sub-matchers: paces the polling
+        self._poll_count = 0
+
         self.ignorecase = "i" in flags
         self.multiline = "m" in flags
         self.dotall = "s" in flags
+
+    def _poll(self) -> None:
+        """Count one step; every poll_interval steps ask the embedder whether to abort.
+
+        The count runs across the attempts of a search and across lookaround
+        sub-matchers, so short attempts cannot add up to unpolled work.
+        """
+        self._poll_count += 1
+        if self._poll_count % self.poll_interval == 0:
+            self._poll_now()
+
+    def _poll_now(self) -> None:
+        if self.poll_callback and self.poll_callback():
+            raise RegexTimeoutError("Regex execution timed out")
 
     def match(self, string: str, start_pos: int = 0) -> Optional[MatchResult]:
         """
@@ -122,6 +139,7 @@ class RegexVM:
         Returns:
             MatchResult if match found, None otherwise
         """
+        self._poll_now()
         return self._execute(string, start_pos, anchored=True)
 
     def search(self, string: str, start_pos: int = 0) -> Optional[MatchResult]:
@@ -135,6 +153,7 @@ class RegexVM:
         Returns:
             MatchResult if match found, None otherwise
         """
+        self._poll_now()
         # Try matching at each position
         for pos in range(start_pos, len(string) + 1):
             result = self._execute(string, pos, anchored=False)
@@ -170,9 +189,7 @@ class RegexVM:
                 _verif_hook(self, "re", pc, sp, len(stack), step_count)
             # Check limits periodically
             step_count += 1
-            if step_count % self.poll_interval == 0:
-                if self.poll_callback and self.poll_callback():
-                    raise RegexTimeoutError("Regex execution timed out")
+            self._poll()
 
             # Hard step limit for ReDoS protection
             if step_count > self.step_limit:
@@ -664,9 +681,7 @@ class RegexVM:
             if _verif_hook is not None:
                 _verif_hook(self, "la", pc, sp, len(stack), step_count)
             step_count += 1
-            if step_count % self.poll_interval == 0:
-                if self.poll_callback and self.poll_callback():
-                    raise RegexTimeoutError("Regex execution timed out")
+            self._poll()
 
             if len(stack) > self.stack_limit:
                 raise RegexStackOverflow("Regex stack overflow")
@@ -779,9 +794,7 @@ class RegexVM:
             if _verif_hook is not None:
                 _verif_hook(self, "lb", pc, sp, len(stack), step_count)
             step_count += 1
-            if step_count % self.poll_interval == 0:
-                if self.poll_callback and self.poll_callback():
-                    raise RegexTimeoutError("Regex execution timed out")
+            self._poll()
 
             if len(stack) > self.stack_limit:
                 raise RegexStackOverflow("Regex stack overflow")
